@@ -4,6 +4,7 @@ CONSTANTS
  GuardDrop <- DropSeq
  CleanerAcquire <- CleanerAcquireSeq
  CleanerDrop <- DropSeq
+ CleanerRefuse <- CleanerRefuseSeq
  NodeMap <- NodeMapVal
  Monitors = {"M1"}
  Cleaners = {"C1"}
@@ -17,5 +18,5 @@ CONSTANTS
  Excused <- ExcusedVal
  ExcuseAll = FALSE
 VIEW view
-INVARIANTS TypeOK NoFalseDead NoReclaimFromLive DeadIsDetected ExclusiveCleanup CleanerCrashRecoverable
+INVARIANTS TypeOK NoFalseDead NoReclaimFromLive DeadIsDetected ExclusiveCleanup CleanerCrashRecoverable RefusedChangesNothing AbsentOnlyAfterCleanup
 CHECK_DEADLOCK FALSE
